@@ -3,8 +3,8 @@
     that does not mention the limit, so one generic lemma gives all cases;
     that the REAL code's loop bodies do not read the limit is what the
     correspondence on pairs of limits checks. *)
-From BB Require Import Base Ref TapeModel InstrsModel MachineModel ReasonModel SegmentModel.
-From BB Require Import Loops MonoMachine ReasonFacts SegmentFacts.
+From BB Require Import Base Ref TapeModel InstrsModel MachineModel ReasonModel SegmentModel CpsModel.
+From BB Require Import Loops MonoMachine ReasonFacts SegmentFacts CpsSound.
 
 Theorem C15_for_upto_mono : forall (St Rs : Type) (body : St -> St + Rs) n m s r,
   for_upto n body s = inr r -> n <= m -> for_upto m body s = inr r.
@@ -36,6 +36,12 @@ Theorem C15_seg_mono : forall prog params goal s s',
   sg_segment_cant_reach prog params s' goal = sg_segment_cant_reach prog params s goal.
 Proof. exact seg_mono. Qed.
 Print Assumptions C15_seg_mono.
+
+(** a closed-set proof found at radius r is found for every radius above r *)
+Theorem C15_cps_mono : forall order prog goal r r',
+  cps_run order prog r goal = Ok true -> r <= r' -> cps_run order prog r' goal = Ok true.
+Proof. intros order prog goal r r'. apply cps_run_mono. Qed.
+Print Assumptions C15_cps_mono.
 
 Example C15_nonvacuous :
   cant_halt f1_halt_prog 9 = Ok BwStepLimit /\ cant_halt f1_halt_prog 10 = Ok (BwRefuted 9) /\
